@@ -223,8 +223,27 @@ def check_string(case):
         lhs = [ln.split('=', 1)[0].replace(' ', '') for ln in lines]
         if len(set(lhs)) == len(lhs):
             expect = len(lines)
-    judge(text, res, expect_statements=expect)
+    judge(text, res, expect_statements=expect, cls='/reserved-name' if case.get('reserved') else '')
     return res
+
+
+def gen_reserved_names():
+    """Scripts whose variable / parameter carries the name of an attribute, property or method of the model object."""
+    def gen():
+        class M0(fsic.BaseModel):
+            ENDOGENOUS = ['Y']
+            NAMES = ['Y']
+            CHECK = ['Y']
+
+            def _evaluate(self, t, **kwargs):
+                pass
+        m = M0(range(3))
+        names = sorted(n for n in set(dir(M0)) | {k.lstrip('_') for k in m.__dict__} | set(m.index)
+                       if n.isidentifier() and not n.startswith('_'))
+        for nm in names:
+            for template in ('{} = X', 'Y = {}', 'Y = {{{}}}', 'Y = <{}>[-1]', '{0} = {0}[-1] + 1'):
+                yield {'s': template.format(nm), 'reserved': True}
+    return gen
 
 
 def gen_strings(max_len, rhs_len, lhs_len):
@@ -445,6 +464,8 @@ def phases(tier):
                        note='two libFuzzer campaigns (empty corpus / valid scripts); every recorded input is re-judged here')]
     return extra + [
         Phase('strings', check_string, gen=gen_strings(3, 3, 3) if quick else gen_strings(4, 4, 4), exhaustive=True),
+        Phase('reserved-names', check_string, gen=gen_reserved_names(), exhaustive=True, shards=4,
+              note='every attribute / property / method name of a model object as a variable, parameter or error name'),
         Phase('keyword-token-strings', check_string, gen=gen_keyword_tokens(4, 5) if quick else gen_keyword_tokens(5, 6), exhaustive=True),
         Phase('mutated-scripts', check_mutant, strategy=strat_mutants, examples=4000 if quick else 120000),
         Phase('valid-and-canary-scripts', check_valid, strategy=strat_valid, examples=1500 if quick else 30000),
